@@ -8,6 +8,7 @@ WT=/tmp/seed/$P-wt; OUT=/tmp/seed/$P-out/$I
 export GOFLAGS=-mod=mod GOPROXY=off
 cd $WT || exit 2
 git checkout -q -- . ; git clean -fdq
+git checkout -q --detach $(git -C /repo rev-parse HEAD)   # confirm against the current tree (fix: commits included)
 meta=$OUT/meta.json
 demo_dir=$(python3 -c "import json;print(json.load(open('$meta'))['demo_dir'])")
 demo_run=$(python3 -c "import json;print(json.load(open('$meta'))['demo_run'])")
@@ -16,7 +17,7 @@ demos=$(ls $OUT | grep -E '_test\.go$|\.go$' )
 for f in $demos; do cp $OUT/$f $WT/$demo_dir/; done
 echo "## demo on clean tree: $demo_run" >> $LOG
 ( cd $WT && eval "$demo_run" ) >> $LOG 2>&1; clean_rc=$?
-git apply $OUT/patch.diff || { echo "patch does not apply" >> $LOG; exit 3; }
+git apply $OUT/patch.diff 2>/dev/null || git apply --3way $OUT/patch.diff || { echo "patch does not apply" >> $LOG; exit 3; }
 echo "## demo with patch" >> $LOG
 ( cd $WT && eval "$demo_run" ) >> $LOG 2>&1; patched_rc=$?
 for f in $demos; do rm -f $WT/$demo_dir/$f; done
